@@ -13,7 +13,7 @@ ADVERSARIAL = [
 ]
 
 
-def mangling_twins(rng, c, p=0.15):
+def mangling_twins(rng, c, p=0.15, prefer=None):
     """rename two nodes of `c` (in place) to names that differ only in punctuation a sanitiser might flatten — bus style
     `d[3]` next to `d_3`, `d[3]` next to `d3`, upper/lower case twins — so that any helper which normalises names
     before looking for a free one makes two different nodes share a derived name.  Returns c."""
@@ -22,7 +22,8 @@ def mangling_twins(rng, c, p=0.15):
     nodes = sorted(n for n in c.graph.nodes if "." not in n)
     if len(nodes) < 2:
         return c
-    a, b = rng.sample(nodes, 2)
+    pref = sorted(n for n in (prefer or []) if n in nodes)
+    a, b = rng.sample(pref, 2) if len(pref) >= 2 else rng.sample(nodes, 2)
     stem = rng.choice(["d", "bus", "q"])
     k = rng.randint(0, 3)
     tw = rng.choice([(f"{stem}[{k}]", f"{stem}_{k}"), (f"{stem}_{k}", f"{stem}[{k}]"), (f"{stem}[{k}]", f"{stem}{k}"),
